@@ -18,6 +18,8 @@ TITLES = [
     ("C02", r"rows-differ_(join|selfjoin|derived|subquery)", "join/subquery answers differ from SQL: NULL = NULL matches in hash/semi joins, NOT IN over NULLs, outer-join ON-condition pushdown", "src/executor/hash_join.rs; src/planner/rules/plan.rs"),
     ("C02", r"rows-differ_proj_", "NULL-unsafe scalar rewrites (a*0, a-a, a=a, conflicting ranges) evaluate to non-NULL on NULL rows", "src/planner/rules/expr.rs"),
     ("C03", r"reopen-fails", "CREATE VIEW consumes a table id that is not logged in the manifest: a table created after a view is replayed under a different id and the database no longer opens", "src/storage/secondary/manifest.rs (replay assigns ids by catalog order); src/executor/create_view.rs"),
+    ("C11", r"implementation-fails:nl@join:(right|full)", "the nested-loop join does not implement RIGHT / FULL OUTER joins (`todo!()`): it panics where hash and merge join answer", "src/executor/nested_loop_join.rs:26"),
+    ("C11", r"implementations-disagree:hash-vs-simple@agg", "simple aggregation returns SUM = 0 for inputs whose values are all NULL, hash/sort aggregation return NULL", "src/executor/simple_agg.rs / src/array/ops.rs sum()"),
     ("C13", r"nofirstkey", "with record_first_key = false every pushed-down key range panics in start_rowid (empty first_key decoded as i32); conflicting two-sided ranges return all rows", "src/storage/secondary/rowset/disk_rowset.rs start_rowid; src/planner/rules/range.rs"),
     ("C13", r"@pos0:int$", "an empty two-sided range (k > c and k < c) pushed into the scan returns every row", "src/storage/secondary/rowset/rowset_iterator.rs (start/end positions of an empty range); src/planner/rules/range.rs"),
     ("C13", r"@pos0:(bigint|smallint)", "range pushdown on a BIGINT/SMALLINT key compares the INT literal with the key by DataValue variant order (and start_rowid only supports Int32): missing and extra rows", "src/storage/secondary/rowset/rowset_iterator.rs; disk_rowset.rs start_rowid; src/planner/rules/range.rs (no type/position check)"),
